@@ -126,6 +126,39 @@ func init() {
 		h := e.st.heap(slSort)
 		return SV{V: TV{e.x.w.SeqSort(slSort), app("g_derefs_SL", h, e.term(args[0]))}}
 	}
+	// crypto and DER vocabulary of the contracts (all uninterpreted; see extern2.go / extern_der.go)
+	specFuncs["hash"] = func(e *specEnv, args []SV) SV { // hash(alg, bytes), alg = crypto.Hash value (SHA256 = 5)
+		return SV{V: TV{SSeqI, app("g_hash", e.term(args[0]), e.term(args[1]))}, T: types.NewSlice(types.Typ[types.Uint8])}
+	}
+	specFuncs["sigvalid"] = func(e *specEnv, args []SV) SV { // sigvalid(cert, algo, signed, sig)
+		return SV{V: TV{SBool, app("g_sigvalid", app("g_pubkey", e.term(args[0])), e.term(args[1]), e.term(args[2]), e.term(args[3]))}}
+	}
+	specFuncs["derok"] = func(e *specEnv, args []SV) SV {
+		return SV{V: TV{SBool, app("g_parse_ok", e.term(args[0]))}}
+	}
+	specFuncs["derbody"] = func(e *specEnv, args []SV) SV {
+		return SV{V: TV{SSeqI, app("g_parse_body", e.term(args[0]))}, T: types.NewSlice(types.Typ[types.Uint8])}
+	}
+	specFuncs["dertag"] = func(e *specEnv, args []SV) SV {
+		return SV{V: TV{SInt, app("g_parse_tag", e.term(args[0]))}}
+	}
+	specFuncs["derrest"] = func(e *specEnv, args []SV) SV {
+		return SV{V: TV{SSeqI, app("g_parse_rest", e.term(args[0]))}, T: types.NewSlice(types.Typ[types.Uint8])}
+	}
+	specFuncs["der"] = func(e *specEnv, args []SV) SV { // der(tag, body): the DER element
+		return SV{V: TV{SSeqI, app("g_der", e.term(args[0]), e.term(args[1]))}, T: types.NewSlice(types.Typ[types.Uint8])}
+	}
+	specFuncs["bigval"] = func(e *specEnv, args []SV) SV { // mathematical value of a *big.Int
+		p, ok := args[0].V.(PtrV)
+		if !ok || p.Ref == "" {
+			return e.fail("bigval() needs a *big.Int")
+		}
+		d := e.x.w.DTByName(p.RootSort)
+		if d == nil || d.FieldIndex("abs__") < 0 {
+			return e.fail("bigval(): %s has no abstract value", p.RootSort)
+		}
+		return SV{V: TV{SInt, d.Get(d.FieldIndex("abs__"), e.st.heapSelect(p.RootSort, p.Ref))}}
+	}
 	specFuncs["pemok"] = func(e *specEnv, args []SV) SV {
 		e.x.w.Decl("(declare-fun g_pemok (" + SSeqI + ") Bool)")
 		return SV{V: TV{SBool, app("g_pemok", e.term(args[0]))}}
